@@ -294,4 +294,7 @@ class LinkedContext(ContextBase):
         self.linked_context[name] = value
 
     def create_child_context(self):
-        return type(self.linked_context)(self)
+        child_type = type(self.linked_context)
+        if not issubclass(child_type, Context):
+            child_type = Context
+        return child_type(self)
